@@ -197,7 +197,18 @@ func c11Enumerate(thorough bool, f func(c11Call)) {
 }
 
 // strings that are not renamings: combining marks, U+FFFD, mixed widths — differential only, delivered through the document
-var c11Extra = []string{"é", "�", "a�b", "é", "aé", "éa", "€😀", "a😀b", "éé", "́", "😀😀😀", "aé€😀"}
+// strings of 8..17 bytes whose only multi-byte code points sit in the last few bytes (word-at-a-time ASCII tests skip tails)
+func c11Tails() []string {
+	var out []string
+	for n := 5; n <= 17; n++ {
+		for _, tail := range []string{"é", "😀", "é!", "€", "éé"} {
+			out = append(out, strings.Repeat("a", n-1)+"b"+tail)
+		}
+	}
+	return out
+}
+
+var c11Extra = append(c11Tails(), []string{"é", "�", "a�b", "é", "aé", "éa", "€😀", "a😀b", "éé", "́", "😀😀😀", "aé€😀"}...)
 
 func c11EnumerateExtra(f func(c11Call)) {
 	ints := []string{"0", "1", "2", "3", "5"}
